@@ -95,3 +95,43 @@ PROPS["C11"] = {
     "uncovered": ["thread schedules (observed only)", "CholeskyDense log-determinant / simulate", "sparse cs setRow/setColumn (documented to update existing entries only)", "empty (0-row/0-column) matrices"],
     "assumptions": ["matrix contents are small integers/dyadics so that double arithmetic is exact for sums/products"],
 }
+
+_KRIG_TB = TB_COMMON + ["covariance values are an oracle computed by the library's plain single-pair API (Model::eval / eval0) — their validity is property C03",
+                        "the linear solves (Eigen) are certified by residual, not modelled"]
+
+PROPS["C01"] = {
+    "module": "GstProofs.Props.C01",
+    "theorems": [
+        "GstProofs.C01.solution", "GstProofs.C01.unique", "GstProofs.C01.dual", "GstProofs.C01.variance",
+        "GstProofs.C01.lhs_blocks", "GstProofs.C01.compress", "GstProofs.C01.compress_rhs", "GstProofs.C01.certificate",
+        "GstProofs.Krig.lhsFull_symm", "GstProofs.Krig.kept_spec",
+    ],
+    "harnesses": ["vh_c01"],
+    "level": "proof",
+    "technique": "Lean 4: kriging system model (flags, block assembly, heterotopic compression) with index theorems for all sizes + Mathlib matrix theorems (block equations, uniqueness, dual=primal, variance formulas) for any field and dimension; per-configuration certificate chain checked in exact rational arithmetic on the library's exported LHS/RHS/weights/dual vector/outputs against an independent covariance oracle",
+    "level_text": "The algebraic clauses are theorems for every dimension; the assembly/compression index rules are theorems of the model; the library is tied to the model stage by stage on generated configurations (1-3D, 1-3 variables, heterotopic, measurement error, known mean / drift order 0-2 / external drift, nested anisotropic models, unique and moving neighbourhoods): LHS and RHS to 2^-40, solves by residual 2^-30, estimate/stdev/varZ from the stage formulas.",
+    "level_note": "Trusted: Lean kernel + 3 standard axioms; covariance oracle (plain API of the same library); Eigen inversion certified only; block kriging, matLC, Bayesian, DGM, image and factor-kriging branches are outside the model; exactly singular systems are excluded (exact rank test) and counted.",
+    "rule": "random configurations: ndim 1-3, nvar 1-3, 4-14 samples at distinct dyadic locations, undefined-value patterns p in {0,.2,.45}, 1-3 nested structures among nugget/spherical/exponential/gaussian/cubic/matern with anisotropy+rotation and random PSD sill matrices, known mean or IRF order 0-2 with optional external drift, optional measurement-error column (undefined/zero/positive), unique or moving neighbourhood, 3 targets each. distinct = distinct request line; trivial = none",
+    "trivial": lambda line: False,
+    "trusted_base": _KRIG_TB,
+    "uncovered": ["block kriging / discretisation", "matLC, collocated, Bayesian, DGM, image neighbourhood, factor kriging", "round-off bound as a function of conditioning (a fixed backward-error tolerance is used)"],
+    "assumptions": ["systems whose exact rational rank is deficient are skipped", "targets for which the library reports failure (undefined outputs) are skipped and counted"],
+}
+
+PROPS["C02"] = {
+    "module": "GstProofs.Props.C02",
+    "theorems": [
+        "GstProofs.C02.exact", "GstProofs.C02.exact_variance", "GstProofs.C02.unbiased", "GstProofs.C02.weights_sum_one",
+        "GstProofs.C02.drift_shift", "GstProofs.C02.linear", "GstProofs.C02.perm", "GstProofs.C02.sk_bound", "GstProofs.C02.stdev_nonneg",
+    ],
+    "harnesses": ["vh_c02"],
+    "level": "proof",
+    "technique": "Lean 4 corollaries (Mathlib matrices, any dimension) of the kriging-system algebra: exactness, unbiasedness, drift shift, linearity, permutation invariance, simple-kriging variance bound; the same relations are applied metamorphically to the real library and checked in exact arithmetic",
+    "level_text": "Every clause of the property is a theorem of the algebraic model; on the library each clause is exercised as a metamorphic relation between kriging runs (targets on data, permuted / translated copies, data plus drift combinations, linear combinations, weight sums).",
+    "level_note": "Trusted as C01; translation invariance is tested (dyadic translations) and follows in the model from the covariance oracle depending on increments only (not separately proved); tolerances are 2^-20 of the data scale (ill-conditioned Gaussian models).",
+    "rule": "random configurations as C01 (ndim 1-3, nvar 1-2, order -1..1, optional heterotopy and measurement errors) with 4 targets of which 2 coincide with data; 7 relations per configuration. distinct = distinct relation line",
+    "trivial": lambda line: False,
+    "trusted_base": _KRIG_TB,
+    "uncovered": ["translation invariance of the drift basis for order 2 (tested only up to order 1)", "moving neighbourhoods (relations are run in unique neighbourhood)"],
+    "assumptions": [],
+}
